@@ -175,3 +175,34 @@ Example c14_example_underflow :
     = Some [0; 0 / (0 + (1 + (0 + 0))); 1 / (0 + (1 + (0 + 0))); 0 / (0 + (1 + (0 + 0)))] /\
   thermal_population (fun x => if Qle_bool (- (1)) x then (if Qle_bool 0 x then 1 else 1 # 2) else 0) Buggy Fixed 1 (1 # 2) [0; 3; 1; 2] [0; 0; 0] 1 = None.
 Proof. split; reflexivity. Qed.
+
+
+(* ---- nested basis contexts (what the strong-coupling branch accumulates from Manager().basis_transformations) ---- *)
+(* the data of an operator inside contexts entered one after the other are (Zi_m ... Zi_1) . A . (Z_1 ... Z_m): the transformation from
+   the site basis is the product in the order of entering - all dimensions, any number of contexts, no hypothesis *)
+Theorem c14_nested_contexts_accumulated_transformation : forall (R : StarRing) n (ctx : list (@mat R * @mat R)) (A : @mat R),
+  meq n (nested_data n ctx A) (mmul n (inverse_product n (map snd ctx)) (mmul n A (basis_product n (map fst ctx)))).
+Proof. intros R. exact (@nested_data_accumulated R). Qed.
+Print Assumptions c14_nested_contexts_accumulated_transformation.
+
+Theorem c14_accumulated_transformation_invertible : forall (R : StarRing) n (ctx : list (@mat R * @mat R)),
+  (forall c, In c ctx -> meq n (mmul n (fst c) (snd c)) mid) ->
+  meq n (mmul n (basis_product n (map fst ctx)) (inverse_product n (map snd ctx))) mid.
+Proof. intros R. exact (@basis_product_inverse R). Qed.
+Print Assumptions c14_accumulated_transformation_invertible.
+
+(* strong coupling requested inside any number of nested contexts reads the site energies *)
+Theorem c14_strong_coupling_nested_contexts : forall (R : StarRing) n (ctx : list (@mat R * @mat R)) (Hsite : @mat R) i, (i < n)%nat ->
+  (forall c, In c ctx -> meq n (mmul n (fst c) (snd c)) mid) ->
+  strong_energies Fixed n (basis_product n (map fst ctx)) (inverse_product n (map snd ctx)) (nested_data n ctx Hsite) i = Hsite i i.
+Proof. intros R. exact (@strong_energies_nested R). Qed.
+Print Assumptions c14_strong_coupling_nested_contexts.
+
+(* non-vacuity: two nested contexts that each swap the two states *)
+Example c14_example_nested_contexts :
+  (forall c, In c [(swap2, swap2); (swap2, swap2)] -> meq 2 (mmul 2 (fst c) (snd c)) (mid (R:=ZR))) /\
+  strong_energies Fixed 2 (basis_product 2 [swap2; swap2]) (inverse_product 2 [swap2; swap2]) (nested_data 2 [(swap2, swap2); (swap2, swap2)] hsite12) 1 = 2%Z.
+Proof.
+  split; [|vm_compute; reflexivity].
+  intros c [<-|[<-|[]]]; exact swap2_involution.
+Qed.
